@@ -584,7 +584,11 @@ func (e *Engine) verifyFunc(fn *ssa.Function, spec *FuncSpec) (vc *VC, err error
 		}
 		env2 := &Env{vc: vc, vars: withNamedResults(env.vars, fn.Signature.Results(), rt.vals), cur: rt.st, old: fr.entry, pkg: fn.Pkg, results: rt.vals, fr: fr}
 		// each postcondition may use the ones listed before it (they are proved separately for the same state)
+		// ... but only those that are checked in every property check in which this one is checked: a clause tagged
+		// for some properties only (label@Cxx,Cyy) is not available to a clause that also counts for other properties,
+		// otherwise a change breaking both would be reported by the other property's check alone
 		var proved []string
+		var provedTags []map[string]bool
 		for i, en := range spec.Ensures {
 			lab := en.Label
 			if lab == "" {
@@ -595,8 +599,16 @@ func (e *Engine) verifyFunc(fn *ssa.Function, spec *FuncSpec) (vc *VC, err error
 				continue
 			}
 			g := vc.evalBool(env2, en.Expr)
-			vc.oblige("ensures", lab, rt.pc, mkImp(mkAnd(proved...), g), fn.Pos(), en.Src)
+			mine := labelTags(lab)
+			var usable []string
+			for j, pj := range proved {
+				if tagsCover(provedTags[j], mine) {
+					usable = append(usable, pj)
+				}
+			}
+			vc.oblige("ensures", lab, rt.pc, mkImp(mkAnd(usable...), g), fn.Pos(), en.Src)
 			proved = append(proved, vc.define("ens", SBool, g))
+			provedTags = append(provedTags, mine)
 		}
 		if (spec.HasModifies || spec.Pure) && !spec.ImplCheck {
 			vc.frameObligations(fr, rt.st, rt.pc, targets)
@@ -716,4 +728,37 @@ func goSortName(t types.Type) string {
 		return SBool
 	}
 	return SInt
+}
+
+// labelTags returns the property tags of a clause label ("name@C01,C02"), nil when the clause counts for every
+// property of its function.
+func labelTags(lab string) map[string]bool {
+	i := strings.Index(lab, "@")
+	if i < 0 {
+		return nil
+	}
+	m := map[string]bool{}
+	for _, t := range strings.Split(lab[i+1:], ",") {
+		if t = strings.TrimSpace(t); t != "" {
+			m[t] = true
+		}
+	}
+	return m
+}
+
+// tagsCover reports whether a clause with tags `have` is checked in every property check that checks a clause
+// with tags `need`.
+func tagsCover(have, need map[string]bool) bool {
+	if have == nil {
+		return true
+	}
+	if need == nil {
+		return false
+	}
+	for t := range need {
+		if !have[t] {
+			return false
+		}
+	}
+	return true
 }
